@@ -5,6 +5,7 @@ the latched error; the sink fails according to an ARBITRARY schedule
 `fails : call index → Bool` ("fail only call k" and "fail call k and all later
 ones" are two instances).
 -/
+import CoapLite.Lemmas.Shape.Api
 import CoapLite.Lemmas.LinkWrite
 import CoapLite.Lemmas.LinkWriteOps
 import CoapLite.Lemmas.Shape.Link
@@ -96,5 +97,12 @@ theorem state_shape_matches_source :
     Shapes.linkAttributeParser = [("inner", "&str")] ∧
     Shapes.unquote = [("inner", "Chars"), ("state", "UnquoteState")] :=
   ⟨ShapeTie.no_global_state, ShapeTie.linkFormatWrite, ShapeTie.linkAttributeWrite, ShapeTie.linkFormatParser, ShapeTie.linkAttributeParser, ShapeTie.unquote⟩
+
+/-- the public entry points of the modelled source files – re-read from /repo/src on every run – are
+exactly the ones the model was written against (`Lemmas/Shape/Api.lean`): a new public way to change the
+state this property is about, or a receiver that became `&mut self`, breaks this theorem -/
+theorem api_surface_matches_source :
+    Shapes.apiLinkFormat = ShapeTie.expectedApiLinkFormat :=
+  ShapeTie.apiLinkFormat
 
 end CoapLite.C18
